@@ -280,11 +280,12 @@ func parseModel(out string) map[string]string {
 }
 
 type Discharger struct {
-	survey  bool
-	w       *World
-	dir     string
-	timeout int
-	sem     chan struct{}
+	deadline time.Time
+	survey   bool
+	w        *World
+	dir      string
+	timeout  int
+	sem      chan struct{}
 }
 
 func sanitizeFile(s string) string {
@@ -556,6 +557,11 @@ func (d *Discharger) coneDepth(hyps []*Term, goal *Term, depth int) []*Term {
 }
 
 func (d *Discharger) run1(name string, hyps []*Term, goal *Term, inputs []InputVar, timeout int, reveal map[string]bool) solveResult {
+	if !d.deadline.IsZero() && time.Now().After(d.deadline) && timeout > 2 {
+		// the check's overall solver budget is used up (this only happens when many obligations no longer
+		// discharge): finish quickly, everything still open is reported as not discharged
+		timeout = 2
+	}
 	termMu.Lock()
 	txt := d.w.smtText(hyps, goal, inputs, reveal)
 	termMu.Unlock()
